@@ -1320,6 +1320,12 @@ class Interp:
             dom = ('tuple', tuple(C(ch) for ch in dom[1]))
         if is_literal_seq(dom):
             return self.unroll(s, dom, fr)
+        # for k in range(len(X)) over a literal X: the same unrolled iterations, the loop variable bound to the position
+        if dom[0] == 'call' and dom[1] == S('range') and len(dom[2]) == 1 and isinstance(s.target, ast.Name) and isinstance(s.iter, ast.Call) and len(s.iter.args) == 1 \
+                and isinstance(s.iter.args[0], ast.Call) and isinstance(s.iter.args[0].func, ast.Name) and s.iter.args[0].func.id == 'len' and len(s.iter.args[0].args) == 1:
+            X = self.ex(s.iter.args[0].args[0], fr)
+            if is_literal_seq(X) and dom[2][0] == C(len(X[1])):
+                return self.unroll(s, X, fr, positions=True)
         sp = splice_domain(dom)
         if sp is not None:
             sp = narrow_range(sp)
@@ -1426,9 +1432,9 @@ class Interp:
                     env[k] = fold_acc(pre[k], entries, k, lid)
         fr.env = env
 
-    def unroll(self, s, dom, fr):
+    def unroll(self, s, dom, fr, positions=False):
         for i, el in enumerate(dom[1]):
-            self.bind(s.target, el, fr.env, fr)
+            self.bind(s.target, C(i) if positions else el, fr.env, fr)
             saved = fr.ctrl
             body = self.sub(s.body, fr)
             ctrl = fr.ctrl
@@ -1546,6 +1552,10 @@ def narrow_range(sp):
     rev = False
     if dom[0] == 'call' and dom[1] == S('reversed') and len(dom[2]) == 1:
         rev, dom = True, dom[2][0]
+    if dom[0] == 'call' and dom[1] == S('range') and len(dom[2]) == 3 and dom[2][2] == C(-1) and not dom[3] and not rev:
+        # range(a, b, -1) == reversed(range(b + 1, a + 1))
+        rev = True
+        dom = CALL(S('range'), [simp_top(BIN('Add', dom[2][1], C(1))), simp_top(BIN('Add', dom[2][0], C(1)))])
     if not (dom[0] == 'call' and dom[1] == S('range') and len(dom[2]) in (1, 2) and not dom[3]):
         return sp
     lo, hi = (C(0), dom[2][0]) if len(dom[2]) == 1 else dom[2]
